@@ -39,6 +39,7 @@ type AttemptPlan struct {
 	StallAfterStop bool // after a cancel / handler / mapper cause the network delivers nothing more
 	ImmediateError bool // the caller calls Error() right after Stream returns, on the same goroutine
 	LogYield       bool // every Errorf/Infof/Print of the library is a scheduling point (parking logger)
+	DebugYield     bool // Debugf calls too (several per event: yield points in the middle of event processing)
 }
 
 // Scenario is a complete simulated run.
@@ -130,6 +131,7 @@ type Run struct {
 	BubbleDeadlock string
 	free *freeState
 	logYield   bool
+	debugYield bool
 	parkedLogs []chan struct{}
 	logParks   int
 	allCancels []context.CancelFunc
@@ -644,7 +646,8 @@ func (r *Run) runAttempt(idx int, plan AttemptPlan) bool {
 	r.streamActive = true
 	r.mu.Unlock()
 	r.mu.Lock()
-	r.logYield = plan.LogYield
+	r.logYield = plan.LogYield || plan.DebugYield
+	r.debugYield = plan.DebugYield
 	r.mu.Unlock()
 	immediateDone := false
 	call := r.launch(func() {
@@ -873,6 +876,10 @@ func (r *Run) runAttempt(idx int, plan AttemptPlan) bool {
 					}
 				}
 				ready = mid || wire == 0
+			case 5:
+				// a library goroutine sits in the logger: the parser is in the middle
+				// of processing an event (or the reader between two statements)
+				ready = r.parkedLogCount() > 0 || (wire == 0 && h == nil && m == nil && conn.isReading())
 			}
 			if ready {
 				fire("cancel")
@@ -999,6 +1006,21 @@ func (r *Run) runAttempt(idx int, plan AttemptPlan) bool {
 		case stopDialErr, stopHandshakeGarbage, stopSetErr, stopDumpWriteErr, stopAuthErr:
 			att.Causes = append(att.Causes, plan.Stop.String())
 			att.CauseStep = r.steps
+		}
+	}
+	if len(att.Causes) == 0 && plan.Stop.streamComposed() && r.master != nil && r.master.phase == phDumping && len(r.master.packets) > 0 {
+		// the packet that carries the cause was delivered in the last step and
+		// Stream returned before the next quiescent point could note it
+		switch plan.Stop {
+		case stopERR, stopEOF, stopInvalidEvent, stopUnsupportedEvent, stopBadSeq:
+			at := plan.Stream.AtPacket
+			if at > len(r.master.packets)-1 {
+				at = len(r.master.packets) - 1
+			}
+			if r.master.packetsDelivered() > at {
+				att.Causes = append(att.Causes, plan.Stop.String())
+				att.CauseStep = r.steps
+			}
 		}
 	}
 	// Stream has returned. Fair environment: goroutines parked in the logger are
